@@ -1339,6 +1339,8 @@ fn interp_jump_relative(cond: JumpCondition, offset: i8, registers: &mut Registe
       let delta = (!(offset as u8) as u16).wrapping_add(1);
       registers.ip = registers.ip.wrapping_sub(delta as u32);
     }
+    // the program counter is 16 bits wide
+    registers.ip &= 0xffff;
     registers.cycles += 1;
   }
   cpu::STATUS_NORMAL
